@@ -15,13 +15,13 @@ and identifier labels), with a fuel bound linear in the number of tokens.
 namespace PycModel.C01
 open PycModel PycModel.View PycModel.FullExpr PycModel.StmtSkel
 
-variable {ty : String → Bool}
+variable {env : Env}
 
 /-- **Every well-formed expression is accepted** (never a syntax error, never a crash): from any
 state that sees the tokens of an expression derivable at the comma level followed by a token that
 cannot continue it, `_parse_expression` returns a tree, within `13 * tokens` steps of recursion. -/
 theorem wellformed_expressions_are_accepted (e : X) (hwf : WFX 0 e) (s : PState) (stop : Tk) (rest : List Tk)
-    (hstop : StopX stop.1) (hs : SeesT ty s (e.flat ++ stop :: rest)) :
+    (hstop : StopX stop.1) (hs : SeesT env s (e.flat ++ stop :: rest)) :
     ∃ v s', run (13 * e.ntoks) .expression s = .ok v s' := by
   obtain ⟨s', h, _⟩ := parse_full e hwf s stop rest hstop hs (13 * e.ntoks) (FullExpr.fuel_linear e)
   exact ⟨_, s', h⟩
@@ -30,7 +30,7 @@ theorem wellformed_expressions_are_accepted (e : X) (hwf : WFX 0 e) (s : PState)
 of the fragment (followed, if it ends with an `else`-less `if`, by something other than `else`),
 `_parse_statement` returns a tree, within `13 * tokens` steps of recursion. -/
 theorem wellformed_statements_are_accepted (st : S) (hwf : WFS st) (s : PState) (rest : List Tk)
-    (hs : SeesT ty s (st.flat ++ rest))
+    (hs : SeesT env s (st.flat ++ rest))
     (hel : st.openIf = true → ∀ k v r, rest = (k, v) :: r → k ≠ "ELSE") :
     ∃ v s', run (13 * st.ntoks) .statement s = .ok v s' := by
   obtain ⟨s', h, _⟩ := parse_stmt st hwf s rest hs hel (13 * st.ntoks) (by have := S.fuel_linear st; omega)
